@@ -162,7 +162,10 @@ fn special_component(rng: &mut Xo, c: &Comp, base: &[f64]) -> Vec<f64> {
                 let s = (1.0 - c * c).max(0.0).sqrt();
                 (0..4).map(|i| c * b[i] + s * o[i]).collect()
             };
-            match rng.below(8) {
+            match rng.below(11) {
+                // canonical half turns and the identity written with literal zeros: the dot
+                // product with an identity centre (and with each other) is EXACTLY 0 or ±1
+                8..=10 => rng.pick(&[[1.0, 0.0, 0.0, 0.0], [0.0, 1.0, 0.0, 0.0], [0.0, 0.0, 1.0, 0.0], [-1.0, 0.0, 0.0, 0.0], [0.0, 0.0, 0.0, 1.0], [0.0, 0.0, 0.0, -1.0]]).to_vec(),
                 0 => b.iter().map(|x| -x).collect(),
                 1 => mk(0.0),
                 2 => mk(0.9995 + 1e-7),
@@ -541,6 +544,13 @@ impl Check for TreeProp {
                     let mut ctor = s.planner.clone();
                     ctor.goal_bias = if bias == 0.5 { 0.0 } else { 0.5 };
                     s.reconfigure_after_setup(ctor);
+                    // half of those: a first solve runs with the constructor's bias BEFORE the
+                    // field is assigned (setup, solve, assign, solve): nothing the first solve
+                    // derived from the old value may survive into the second
+                    if (index / 25) % 4 == 3 {
+                        let k = s.calls.iter().position(|c| matches!(c, CallSpec::SetParams { .. })).unwrap();
+                        s.calls.insert(k, crate::checks::solve_budget(40 + rng.below(60)));
+                    }
                 }
                 return s;
             }
@@ -571,6 +581,14 @@ impl Check for TreeProp {
             scn.planner.goal_bias = *rng.pick(&[0.05, 0.3]);
             scn.params.insert("history".into(), 1.0);
             scn.family = format!("history/{}", scn.family);
+            // RRT-Connect draws its goal root inside setup: a third of its histories let the goal
+            // sampler fail on exactly the draw made by one of the setup calls (found with a dry
+            // run, see eval_history). Whatever setup does about it (today it panics, which is
+            // C08's subject), no later tree may be rooted at anything but a goal sample.
+            if kind == PlannerKind::RRTConnect && rng.chance(0.33) {
+                let setups = scn.calls.iter().filter(|c| matches!(c, CallSpec::Setup { .. })).count() as u64;
+                scn.params.insert("goal_sampler_fails_in_setup".into(), rng.below(setups) as f64);
+            }
             return scn;
         }
         // a share of the prefix-replay scenarios (a fresh seeded planner per run) draw their goal
@@ -735,6 +753,24 @@ impl TreeProp {
     // C15 on API histories: the complete trees after every solve call
 
     fn eval_history(&self, scn: &Scenario, mut rep: Report) -> Report {
+        let mut derived;
+        let mut scn = scn;
+        if let Some(which) = scn.param("goal_sampler_fails_in_setup") {
+            // dry run: the ordinal (over the scenario) of the sample_goal call that the chosen
+            // setup makes
+            let dry = run(scn, &RunOpts { snapshots: false, ..Default::default() });
+            let setups: Vec<usize> = scn.calls.iter().enumerate().filter(|(_, c)| matches!(c, CallSpec::Setup { .. })).map(|(i, _)| i).collect();
+            if let Some(call) = setups.get(which as usize).and_then(|ci| dry.calls.get(*ci)) {
+                let before = dry.log[..call.ev_lo].iter().filter(|e| matches!(e, Ev::SG(_))).count() as u64;
+                let inside = dry.log[call.ev_lo..call.ev_hi].iter().filter(|e| matches!(e, Ev::SG(_))).count();
+                if inside > 0 {
+                    derived = scn.clone();
+                    derived.faults.push(crate::spec::FaultSpec::GoalSamplerErr { at_call: before + 1 });
+                    scn = &derived;
+                    rep.probe("goal_sampler_fault_in_setup");
+                }
+            }
+        }
         let out = run(scn, &RunOpts::default());
         rep.absorb(&out);
         rep.probe("history");
@@ -770,6 +806,10 @@ impl TreeProp {
                 }
                 if ti == 0 && !bits_eq(&t[0].0, &prob.starts[0]) {
                     v.push(viol("C15", format!("C15/root_not_start/{pk}"), format!("call #{ci}: the start tree's root is not the installed start state")));
+                    break 'calls;
+                }
+                if ti == 1 && !out.log[setup_ev..call.ev_hi].iter().any(|e| matches!(e, Ev::SG(Some(s)) if bits_eq(s, &t[0].0))) {
+                    v.push(viol("C15", format!("C15/root_not_goal_sample/{pk}"), format!("call #{ci}: the goal tree's root {} was never returned by sample_goal since the setup in force", fmt_state(&t[0].0))));
                     break 'calls;
                 }
                 for (j, node) in t.iter().enumerate() {
